@@ -157,6 +157,17 @@ out = list(ZFilter([1], [Fraction(1, 3)])([Fraction(1), Fraction(1)],
 print("ok" if out == [3, 3] else
       "DEFECT: y = x / a0 with a0 = 1/3 gives %r (expected [3, 3])" % (out,))
 """),
+  ("13 C06 calling a filter with a Stream a0 removes a0 from the filter", r"""
+a0 = thub(Stream(2., 4.), 2)
+f = ZFilter([1], [a0, .5])
+first = f([1., 1, 1, 1]).take(4)
+try:
+    second = f([1., 1, 1, 1]).take(4)
+    print("ok" if second == first else "DEFECT: second call gave %r" % second)
+except ZeroDivisionError as exc:
+    print("DEFECT: second call raised %r; the filter's denominator is now "
+          "%s" % (exc, f.denpoly))
+"""),
 ]
 
 
